@@ -5,6 +5,10 @@ correspondence:  (a) exhaustive get/set sequences: per-step observations (get
                  output + the walked linked structure) folded into a checksum,
                  summed per first-op group, computed by the model inside Coq
                  and by LFUCache; (b) random long traces compared in full.
+                 (d) random traces of get / set(key, report_type, value) /
+                 set(key, value=v) against the extension model LfuRtModel.v:
+                 every output (content snapshot, not_found, raised) and the
+                 walked structure with contents after every step.
                  (c) the Coq SPEC (spec_sx, LfuSpec.v) evaluated on the same
                  random traces against the Python reference LFU: outputs and
                  final (key, value, uses) in order.
@@ -23,9 +27,10 @@ from harness import core
 THEOREM_FILE = "Properties/C18.v"
 COQCHK = ["Properties.C18"]
 RULE = ("exhaustive: every sequence of get/set over 3 keys of length <= L for capacity 1..3 (value written by the t-th op is t); "
-        "random: sequences of length <= 200 over <= 8 keys, capacity 1..8; a case is non-trivial when it contains at least one eviction "
+        "random: sequences of length <= 200 over <= 8 keys, capacity 1..8; report-type traces: length <= 60 over <= 6 keys, capacity 1..5, "
+        "3 report types, values 0..4; a case is non-trivial when it contains at least one eviction "
         "or one successful get; distinct = distinct (capacity, op sequence)")
-TRUSTED = ["LFUCache.set with report_type (defaultdict content) is not modelled: deepdiff itself only calls set(key, value=...)",
+TRUSTED = ["LFUCache.set with report_type: get returns the live defaultdict object (a later set mutates it); the model and the harness observe its value at the time of the get",
            "thread scheduling / the GIL are not modelled; the concurrency clause is tied to the sequential theorem by a lock-discipline monitor and a threaded stress run (partial)"]
 ASSUMPTIONS = ["keys and values are integers in the model (the cache never inspects them beyond hashing/equality)"]
 
@@ -320,6 +325,135 @@ def random_traces(ctx, n, maxlen):
     ctx.coq_cases("lfu_spec_traces", "From DD Require Import Lfu.LfuModel Lfu.LfuShow.\nLocal Open Scope Z_scope.", spec_cases, shard=100, label="spec_vs_reference")
 
 
+# ---- set(key, report_type, value) -------------------------------------------
+
+RT_NAMES = {1: "values_changed", 2: "type_changes", 3: "iterable_item_added"}
+RT_IDS = {v: k for k, v in RT_NAMES.items()}
+
+
+def snap(content):
+    """content of a node -> observable: plain int or defaultdict(SetOrdered)"""
+    if isinstance(content, dict):
+        return ["rep", [[RT_IDS[r], list(vs)] for r, vs in content.items()]]
+    return ["val", content]
+
+
+def gen_random_rt(rng, maxlen):
+    nk = rng.choice([2, 3, 4, 6])
+    cap = rng.randint(1, 5)
+    L = rng.randint(1, maxlen)
+    pget = rng.choice([0.3, 0.5])
+    mode = {k: rng.random() < 0.6 for k in range(nk)}       # key mostly used with / without report types
+    ops = []
+    for _ in range(L):
+        k = rng.randrange(nk)
+        if rng.random() < pget:
+            ops.append(("get", k, 0, None))
+        else:
+            with_rt = mode[k] if rng.random() < 0.85 else not mode[k]
+            ops.append(("set", k, rng.randint(0, 4), rng.choice([1, 2, 3]) if with_rt else None))
+    return cap, ops
+
+
+def coq_rops(ops):
+    out = []
+    for kind, k, v, rt in ops:
+        if kind == "get":
+            out.append("RGet %s" % core.coq_Z(k))
+        else:
+            out.append("RSet %s %s %s" % (core.coq_Z(k), "None" if rt is None else "(Some %s)" % core.coq_Z(rt), core.coq_Z(v)))
+    return "[" + "; ".join(out) + "]"
+
+
+def run_impl_rt(cap, ops):
+    """LFUCache with report types next to the reference (contents: int or {rt: [values]})."""
+    from deepdiff.lfucache import LFUCache
+    from deepdiff.helper import not_found
+    c = LFUCache(cap)
+    ref = RefLFU(cap)
+    outs, states, err = [], [], None
+    flags = {"evicted": False, "hit": False, "raised": False}
+    for i, (kind, k, v, rt) in enumerate(ops):
+        try:
+            if kind == "get":
+                r = c.get(k)
+                exp = ref.get(k)
+                if r is not_found:
+                    outs.append("not_found")
+                    got = None
+                else:
+                    got = snap(r)
+                    outs.append(["got", got])
+                    flags["hit"] = True
+                want = None if exp is None else snap(exp)
+                if got != want and err is None:
+                    err = "step %d: get(%r) returned %r, expected %r" % (i, k, got, want)
+            else:
+                # reference semantics of the content
+                exp_raise = False
+                if k in ref.d:
+                    cur = ref.d[k][0]
+                    if rt is not None:
+                        if not isinstance(cur, dict):
+                            exp_raise = True
+                        else:
+                            new = {r_: list(vs) for r_, vs in cur.items()}
+                            new.setdefault(RT_NAMES[rt], [])
+                            if v not in new[RT_NAMES[rt]]:
+                                new[RT_NAMES[rt]].append(v)
+                    else:
+                        new = v
+                else:
+                    new = {RT_NAMES[rt]: [v]} if rt is not None else v
+                    if len(ref.d) >= cap:
+                        flags["evicted"] = True
+                try:
+                    c.set(k, report_type=RT_NAMES[rt] if rt is not None else None, value=v)
+                    raised = False
+                except TypeError:
+                    raised = True
+                    flags["raised"] = True
+                outs.append("raised" if raised else "done")
+                if not exp_raise:
+                    ref.set(k, new)
+                if raised != exp_raise and err is None:
+                    err = "step %d: set(%r, %r, %r) raised=%r, expected raised=%r" % (i, k, rt, v, raised, exp_raise)
+            st = walk(c)
+        except Exception as e:
+            return outs, states, "step %d: %s: %s" % (i, type(e).__name__, e), flags
+        states.append([[f, [[kk, snap(cc)] for kk, cc in items]] for f, items in st])
+        if err is None:
+            if len(c.cache) > cap:
+                err = "step %d: holds %d keys, capacity %d" % (i, len(c.cache), cap)
+            elif set(c.cache.keys()) != set(ref.d.keys()):
+                err = "step %d: keys %r, a bounded LFU map holds %r" % (i, sorted(c.cache.keys()), sorted(ref.d.keys()))
+            else:
+                uses = {kk: f for f, items in st for kk, _ in items}
+                if uses != {kk: e[1] for kk, e in ref.d.items()}:
+                    err = "step %d: use counts %r, expected %r" % (i, uses, {kk: e[1] for kk, e in ref.d.items()})
+    return outs, states, err, flags
+
+
+def rt_traces(ctx, n, maxlen):
+    cases = []
+    for i in range(n):
+        cap, ops = gen_random_rt(ctx.rng, maxlen)
+        outs, states, err, flags = run_impl_rt(cap, ops)
+        ctx.seen(("rt", cap, tuple(ops)), nontrivial=flags["evicted"] or flags["hit"])
+        ctx.count("rt:traces")
+        if flags["raised"]:
+            ctx.count("rt:with_raise")
+        if flags["evicted"]:
+            ctx.count("rt:with_eviction")
+        if err:
+            ctx.fail({"capacity": cap, "rt_ops": ops, "error": err}, "LFUCache with report types deviates from a bounded LFU map: " + err)
+        cases.append(("rt_trace_sx %d %s" % (cap, coq_rops(ops)), [outs, states], {"capacity": cap, "rt_ops": ops}))
+        if i < 1:
+            ctx.sample({"capacity": cap, "rt_ops": ops[:20], "outs": outs[:20]})
+    ctx.coq_cases("lfu_rt_traces", "From DD Require Import Lfu.LfuModel Lfu.LfuRtModel Lfu.LfuRtShow.\nLocal Open Scope Z_scope.",
+                  cases, shard=50, label="report_type_traces")
+
+
 # ---- concurrency ------------------------------------------------------------
 
 class _RecLock:
@@ -443,6 +577,7 @@ def threaded(ctx, rounds, nthreads=8, nops=4000):
 def run(ctx):
     exhaustive(ctx, 3, 7 if ctx.thorough else 6)
     random_traces(ctx, 1500 if ctx.thorough else 300, 200)
+    rt_traces(ctx, 1000 if ctx.thorough else 200, 60)
     lock_monitor(ctx, 300 if ctx.thorough else 60)
     threaded(ctx, 12 if ctx.thorough else 3)
     ctx.sample({"exhaustive_example": {"capacity": 2, "ops": ops_of((1, 3, 0, 5, 2))}})
@@ -450,7 +585,14 @@ def run(ctx):
 
 def replay(ctx, data):
     case = data.get("case", {})
-    if "ops" in case:
+    if "rt_ops" in case:
+        ops = [tuple(o) for o in case["rt_ops"]]
+        outs, states, err, _ = run_impl_rt(case["capacity"], ops)
+        ctx.evaluations += 1
+        print("replay: outs=%r final=%r error=%r" % (outs, states[-1] if states else None, err))
+        if err:
+            ctx.fail({"capacity": case["capacity"], "rt_ops": ops, "error": err}, "LFUCache with report types deviates from a bounded LFU map: " + err)
+    elif "ops" in case:
         ops = [tuple(o) for o in case["ops"]]
         h, outs, st, err, _ = run_impl(case["capacity"], ops)
         ctx.evaluations += 1
